@@ -9,7 +9,7 @@ By the representation invariant of Graph (C04/graph_add_edge: edge e = (u, v) co
 to row v) this is, for a loop-free graph, the schema
       exists rank : V -> [0, n-1].  (forall e. rank(src e) != rank(dst e))  and
                                      (forall i. #{e active at i with rank(other end) < rank(i)} <= 1),
-and lean/C09Acyclic.lean proves (Lean 4 + Mathlib, no sorry, axioms propext/Classical.choice/Quot.sound):
+and lean/Encoders.lean (namespace C09) proves (Lean 4 + Mathlib, no sorry, axioms propext/Classical.choice/Quot.sound):
       that schema is satisfiable  <=>  every non-empty set of active edges has a vertex met by exactly one of them
 (the leaf characterisation of forests; two active parallel edges violate it).  The step from the posted expression
 objects to their meaning is the per-operator contract of C01/C12; the step from the incidence lists to src/dst is
